@@ -85,11 +85,17 @@ class Tracer:
         self.version_syms = {}
         self.zone_new = []
         self.top_calls = []
+        self.gets = []
         self.visits = {}
         self.cursor_ref = None
         self.lineage = None  # length symbols of the input and of every rest split off it
         self.notes = []
         self.v1_rest = None  # length symbol of the cursor after the last cursor-level read
+
+    @staticmethod
+    def I_keys(I, sym):
+        k = I.st.keys[sym]
+        return isinstance(k, tuple) and k and k[0] == "phi"
 
     @staticmethod
     def root_block(site):
@@ -242,6 +248,15 @@ class Tracer:
             if p in ("tz::timezone::Transition", "tz::timezone::LeapSecond"):
                 S = kw["state"]
                 self.lits.append({"path": p, "rb": self.root_block(kw["site"]), "fields": [self.describe(S, x) for x in kw["value"].fields]})
+            return None
+        if e == "seq_get":
+            v = kw["seq"]
+            if isinstance(v, Seq):
+                tags = frozenset(t for t in v.prov if t[0] == "read")
+                if tags:
+                    ctx = kw["ctx"]
+                    key = self.I_keys(kw["interp"], kw["index"])
+                    self.gets.append({"tags": tags, "index": kw["index"], "index_is_loop_counter": key, "state": ctx.S.copy()})
             return None
         if e == "iter_next":
             ctx = kw["ctx"]
@@ -511,9 +526,20 @@ def evaluate(tr, box, fields, where):
         if btag[5] in tg or btag[6] in tg:
             pair_iters.append(n["it"])
     stats["indicator iterators"] = len(pair_iters)
-    if not pair_iters:
-        out.append(("PAIRS", "%s|no-pair-loop" % where, "no iterator over the standard/wall and UT/local indicator blocks is advanced: the pairs are not examined"))
-    else:
+    # the same examination written as an index loop: both blocks read with `get(i)`, i a loop counter from 0 with
+    # i < typecnt inside the body (absent entries are the `None` of get)
+    idx_loop = False
+    g6 = [g for g in tr.gets if btag[5] in g["tags"]]
+    g7 = [g for g in tr.gets if btag[6] in g["tags"]]
+    if g6 and g7:
+        def bounded(g):
+            S_ = g["state"]
+            return D.lo(S_.ivof(g["index"])) == 0 and S_.entails(S_.term(g["index"]).sub(S_.term(counts["typecnt"])).addc(1))
+        idx_loop = all(bounded(g) for g in g6 + g7) and any(g["index_is_loop_counter"] for g in g6) and any(g["index_is_loop_counter"] for g in g7)
+        stats["indicator index loop"] = idx_loop
+    if not pair_iters and not idx_loop:
+        out.append(("PAIRS", "%s|no-pair-loop" % where, "neither an iterator nor an index loop bounded by typecnt examines the standard/wall and UT/local indicator blocks: the pairs are not examined"))
+    elif pair_iters:
         it = pair_iters[-1]
         ln = iter_len(it, None)
         if not (ln is not None and ln[0] == "lin" and lin_is(ln[1], counts["typecnt"], 1)):
